@@ -3,8 +3,10 @@ package main
 // Program definitions as data, and their construction through the public API.
 
 import (
+	"bytes"
 	"context"
 	"fmt"
+	"math"
 	"os"
 	"strings"
 
@@ -71,15 +73,16 @@ type CmdDef struct {
 }
 
 type ProgDef struct {
-	Root      *CmdDef
-	Mode      int
-	MapLower  bool
-	HelpEarly bool // HelpCommand is declared before the last command of the program is created
-	ModeFirst int  // >0: SetMode(ModeFirst-1) is called before the final SetMode(Mode) (a setter called twice)
-	Help      bool
-	HelpName  string
-	HelpAlias []string
-	Env       map[string]string
+	Root       *CmdDef
+	Mode       int
+	MapLower   bool
+	EarlyParse bool // Parse([]) is called on the fresh GetOpt before anything is declared (a program that parses more than once)
+	HelpEarly  bool // HelpCommand is declared before the last command of the program is created
+	ModeFirst  int  // >0: SetMode(ModeFirst-1) is called before the final SetMode(Mode) (a setter called twice)
+	Help       bool
+	HelpName   string
+	HelpAlias  []string
+	Env        map[string]string
 }
 
 // Built - a constructed program with everything the harness observes.
@@ -191,6 +194,14 @@ func aliasCalls(g *getoptions.GetOpt, name string, aliases []string) []getoption
 		fns = append(fns, g.Alias(a))
 	}
 	return fns
+}
+
+// realMax - the HugeMax marker of a definition becomes the "no upper limit" idiom in the real call
+func realMax(m int) int {
+	if m >= HugeMax {
+		return math.MaxInt
+	}
+	return m
 }
 
 func (b *Built) defineOpt(g *getoptions.GetOpt, path string, o *OptDef) {
@@ -308,26 +319,26 @@ func (b *Built) defineOpt(g *getoptions.GetOpt, path string, o *OptDef) {
 			if o.PreSet {
 				v = []string{"pre"}
 			}
-			g.StringSliceVar(&v, o.Name, o.Min, o.Max, fns...)
+			g.StringSliceVar(&v, o.Name, o.Min, realMax(o.Max), fns...)
 			b.Ptrs[key] = &v
 		} else {
-			b.Ptrs[key] = g.StringSlice(o.Name, o.Min, o.Max, fns...)
+			b.Ptrs[key] = g.StringSlice(o.Name, o.Min, realMax(o.Max), fns...)
 		}
 	case KIntRep:
 		if o.UseVar {
 			var v []int
-			g.IntSliceVar(&v, o.Name, o.Min, o.Max, fns...)
+			g.IntSliceVar(&v, o.Name, o.Min, realMax(o.Max), fns...)
 			b.Ptrs[key] = &v
 		} else {
-			b.Ptrs[key] = g.IntSlice(o.Name, o.Min, o.Max, fns...)
+			b.Ptrs[key] = g.IntSlice(o.Name, o.Min, realMax(o.Max), fns...)
 		}
 	case KFloatRep:
 		if o.UseVar {
 			var v []float64
-			g.Float64SliceVar(&v, o.Name, o.Min, o.Max, fns...)
+			g.Float64SliceVar(&v, o.Name, o.Min, realMax(o.Max), fns...)
 			b.Ptrs[key] = &v
 		} else {
-			b.Ptrs[key] = g.Float64Slice(o.Name, o.Min, o.Max, fns...)
+			b.Ptrs[key] = g.Float64Slice(o.Name, o.Min, realMax(o.Max), fns...)
 		}
 	case KMap:
 		if o.UseVar {
@@ -335,10 +346,10 @@ func (b *Built) defineOpt(g *getoptions.GetOpt, path string, o *OptDef) {
 			if o.PreSet {
 				v = map[string]string{"pre": "set"}
 			}
-			g.StringMapVar(&v, o.Name, o.Min, o.Max, fns...)
+			g.StringMapVar(&v, o.Name, o.Min, realMax(o.Max), fns...)
 			b.Ptrs[key] = &v
 		} else {
-			m := g.StringMap(o.Name, o.Min, o.Max, fns...)
+			m := g.StringMap(o.Name, o.Min, realMax(o.Max), fns...)
 			b.Ptrs[key] = &m
 		}
 	}
@@ -453,6 +464,16 @@ func BuildOps(p *ProgDef, ops []Op) (b *Built, err error) {
 	b = &Built{FnIDs: map[string]int{}, Ptrs: map[string]interface{}{}, pathOf: map[*CmdDef]string{}}
 	g := getoptions.New()
 	g.Self(p.Root.Name, p.Root.Desc)
+	if p.EarlyParse {
+		// nothing is declared yet and the command line is empty: this Parse stores nothing and
+		// leaves nothing behind; whatever the library remembers from it is hidden state
+		func() {
+			old := getoptions.Writer
+			getoptions.Writer = new(bytes.Buffer)
+			defer func() { getoptions.Writer = old }()
+			_, _ = g.Parse([]string{})
+		}()
+	}
 	if p.ModeFirst > 0 {
 		g.SetMode(getoptions.Mode(p.ModeFirst - 1))
 	}
